@@ -79,6 +79,33 @@ fn follow_ups() -> Vec<TxScript> {
     ]
 }
 
+/// A copy of a pinned-format file in which every byte the pinned release leaves uninitialised
+/// (page-header padding after the type byte, leaf-element padding after the entry type) is
+/// replaced by seeded garbage: the pinned code writes whatever the allocator held there, so such a
+/// file is indistinguishable from one it could have produced.
+fn fuzz_padding(bytes: &[u8], ps: u64, seed: u64) -> Vec<u8> {
+    let mut out = bytes.to_vec();
+    let rep = fileck::check(bytes, ps);
+    let mut rng = crate::util::Rng::new(seed);
+    for (page, ty, count) in &rep.heads {
+        let base = (*page * ps) as usize;
+        for o in 9..16 {
+            out[base + o] = rng.below(256) as u8;
+        }
+        if *ty == fileck::T_LEAF {
+            for i in 0..*count as usize {
+                let e = base + fileck::PAYLOAD + i * fileck::LEAF_ELEM;
+                for o in 1..8 {
+                    if e + o < out.len() {
+                        out[e + o] = rng.below(256) as u8;
+                    }
+                }
+            }
+        }
+    }
+    out
+}
+
 #[derive(Default)]
 struct St {
     files: u64,
@@ -88,6 +115,8 @@ struct St {
     fileck_golden: u64,
     produced_files_parsed: u64,
     legacy_files: u64,
+    fuzzed_padding_files: u64,
+    small_file_mismatches_refused: u64,
 }
 
 fn check_file(ctx: &Ctx, shard: &mut Shard, st: &mut St, golden: &Path, ps: u64, legacy: bool, manifest: &MBucket, scratch: &Scratch) {
@@ -244,6 +273,26 @@ pub fn run(ctx: &Ctx) -> Shard {
             check_file(ctx, &mut shard, &mut st, &f, ps, legacy, &manifest, &scratch);
             shard.set("golden_files", format!("page size {} {} ({} entries)", ps, if legacy { "legacy header" } else { "current header" }, manifest.total_entries()));
         }
+        // the same golden file with the bytes the pinned release never initialises set to garbage
+        for variant in 0..2u64 {
+            idx += 1;
+            if idx % ctx.nshards != ctx.shard {
+                continue;
+            }
+            let src = dir.join(format!("golden-{}.db", ps));
+            if let Ok(bytes) = std::fs::read(&src) {
+                let fz = fuzz_padding(&bytes, ps, ctx.seed.wrapping_mul(31).wrapping_add(variant).wrapping_add(ps));
+                let fpath = scratch.path(&format!("fuzzed-{}-{}.db", ps, variant));
+                std::fs::write(&fpath, &fz).expect("write fuzzed golden");
+                shard.evaluations += 1;
+                let hh = util::fnv64(format!("fuzzed|{}|{}", ps, variant).as_bytes());
+                shard.distinct.insert(hh);
+                shard.nontrivial.insert(hh);
+                st.fuzzed_padding_files += 1;
+                check_file(ctx, &mut shard, &mut st, &fpath, ps, false, &manifest, &scratch);
+                let _ = std::fs::remove_file(&fpath);
+            }
+        }
         // files written by the current code from the same logical history conform to the pinned layout
         idx += 1;
         if idx % ctx.nshards == ctx.shard {
@@ -272,6 +321,48 @@ pub fn run(ctx: &Ctx) -> Shard {
             }
         }
     }
+    // small files (never grown) opened with every other page size: refused, bytes unchanged
+    for (si, (ps, np)) in [(1024u64, 8usize), (1024, 32), (4096, 4), (5000, 6), (2048, 16)].iter().enumerate() {
+        if (si as u64 + 11) % ctx.nshards != ctx.shard {
+            continue;
+        }
+        let mut h = golden_history(*ps, *np);
+        h.txs.truncate(1);
+        // keep it small: only the first 12 operations of the first transaction
+        h.txs[0].ops.truncate(12);
+        let path = scratch.fresh("small");
+        let out = exec::run_history(&h, &ExecCfg::default(), &path);
+        if out.aborted {
+            shard.inconclusive(format!("could not build the small {}x{} file", ps, np));
+            continue;
+        }
+        let bytes = std::fs::read(&path).unwrap_or_default();
+        shard.evaluations += 1;
+        let hh = util::fnv64(format!("small|{}|{}", ps, np).as_bytes());
+        shard.distinct.insert(hh);
+        shard.nontrivial.insert(hh);
+        for other in [1024u64, 2048, 4096, 5000, 8192, 16384, 65536] {
+            if other == *ps {
+                continue;
+            }
+            let ho = History { pagesize: other, ..h.clone() };
+            let r = util::catch(|| exec::open_db(&path, &ho).map(|db| db.tx(false).map(|tx| exec::dump_tx(&tx).is_ok()).unwrap_or(false)));
+            let refused = !matches!(&r, Ok(Ok(_)));
+            let replay = serde_json::json!({"kind": "small-file-mismatch", "pagesize": ps, "pages": np, "opened_with": other});
+            if !refused {
+                shard.violation(ctx, "pagesize-mismatch:not-refused", &format!("a {} x {} page file was opened with page size {} and accepted", ps, np, other), &replay);
+            } else {
+                st.small_file_mismatches_refused += 1;
+            }
+            if std::fs::read(&path).map(|b| b != bytes).unwrap_or(true) {
+                shard.violation(ctx, "pagesize-mismatch:file-modified", &format!("opening a {} x {} page file with page size {} changed the file's bytes", ps, np, other), &replay);
+                let _ = std::fs::write(&path, &bytes);
+            }
+        }
+        let _ = std::fs::remove_file(&path);
+    }
+    shard.count("golden_files_with_garbage_in_uninitialised_padding", st.fuzzed_padding_files);
+    shard.count("small_file_page_size_mismatches_refused", st.small_file_mismatches_refused);
     shard.count("golden_files_checked", st.files);
     shard.count("legacy_header_files_checked", st.legacy_files);
     shard.count("opens_fully_verified_against_manifest", st.opens_verified);
